@@ -78,7 +78,7 @@ def set_perturb(byte):
     _libc.mallopt(ctypes.c_int(-6), ctypes.c_int(int(byte) & 0xFF))
 
 
-from cidersim.faultat import FaultAt, InjectedFault, draw_fault, for_op, remember  # noqa: E402,F401
+from cidersim.faultat import CallInterrupted, FaultAt, InjectedFault, draw_fault, for_op, remember  # noqa: E402,F401
 
 
 def scribble(hist, stats, *arrays):
@@ -1437,6 +1437,13 @@ def gen_ks_history(seed):
             # the calculator's own grids object rebuilt in place and restores the level afterwards
             # ("should leave calc almost the same as it started"); the object is then used again
             ops.append({"op": "analyze", "cycles": 1, "dm": rng.below(3), "alevel": rng.choice([None, 0, 1, 1])})
+            if rng.chance(0.3):
+                # the energy evaluation on the temporary grids is interrupted (the other level is
+                # usually the larger one: an allocation fails, or the user gives up) at a seeded
+                # line inside it; un-acknowledged, the Kohn-Sham object is used again afterwards.
+                # (Only that evaluation is interrupted, never the code that puts the object back:
+                # no clean-up can be demanded to survive its own interruption.)
+                ops[-1]["fault"] = draw_fault(rng)
             if rng.chance(0.7):
                 ops.append({"op": "veff", "dm": rng.below(3)})
         elif c == "displace":
@@ -1484,7 +1491,7 @@ def exec_ks_history(hist, rp):
         ks.kernel(dm0=dm0)
         return float(ks.e_tot), np.array(ks.make_rdm1(), copy=True)
 
-    def do(ks, mol, op, k):
+    def do(ks, mol, op, k, inject=False):
         if op["op"] == "veff":
             dm = np.array(U.dm(k, 2 if uks else 1, op["dm"]), copy=True)
             b = adigest(dm)
@@ -1495,8 +1502,24 @@ def exec_ks_history(hist, rp):
         if op["op"] == "analyze":
             from ciderpress.pyscf.analyzers import ElectronAnalyzer
 
-            an = ElectronAnalyzer.from_calc(ks, grids_level=op.get("alevel"))
-            mol.verbose = 0  # (the analyzer sets the verbosity of the molecule it is given)
+            inj = for_op(op if inject else {})
+            orig_etot = ks.energy_tot
+
+            def etot_interrupted(*a, **kw):
+                with inj:
+                    return orig_etot(*a, **kw)
+
+            if inject and op.get("fault"):
+                ks.energy_tot = etot_interrupted  # (instance attribute: removed again below)
+            try:
+                an = ElectronAnalyzer.from_calc(ks, grids_level=op.get("alevel"))
+            finally:
+                ks.__dict__.pop("energy_tot", None)
+                mol.verbose = 0  # (the analyzer sets the verbosity of the molecule it is given)
+                if inj.fired:
+                    remember(op, inj)
+                    stats["analyses_interrupted_by_injected_failure"] += 1
+                    stats["fault_site_" + inj.where] += 1
             stats["analyzer_other_level" if op.get("alevel") not in (None, level) else "analyzer_same_level"] += 1
             return {"e_tot": e, "dm": dm, "exc_orig": float(an.get("exc_orig")), "e_tot_orig": float(an.get("e_tot_orig"))}, True
         if op["op"] == "grad":
@@ -1554,7 +1577,11 @@ def exec_ks_history(hist, rp):
                 ks.reset(m)
                 stats["in_place_displacements"] += 1
                 continue
-            got, inputs_ok = do(ks, U.mol(cur), op, cur)
+            got, inputs_ok = do(ks, U.mol(cur), op, cur, inject=True)
+        except (InjectedFault, CallInterrupted):
+            # un-acknowledged: nothing is demanded of the interrupted request itself; the object
+            # lives on with the configuration its user gave it
+            continue
         except Exception as ex:
             import traceback
 
@@ -1602,6 +1629,14 @@ def exec_ks_history(hist, rp):
             stats["comparisons"] += 1
             if not ok:
                 V("history_vs_fresh:ks.%s:%s:%s" % (c, name, site), "step %d (%s, mol %s after %s): %s" % (step, mdesc["settings"], hist["mols"][cur]["name"], [o["op"] for o in hist["ops"][:step]][-4:], why))
+    # (this engine works on a copy of the history: the fault sites that fired go into the
+    # history of the replay file, so that a replay in another process fails at the same place)
+    try:
+        for o_src, o_dst in zip(hist["ops"], rp["case"]["hist"]["ops"]):
+            if o_src.get("fault_site") and not o_dst.get("fault_site"):
+                o_dst["fault_site"] = o_src["fault_site"]
+    except (KeyError, TypeError):
+        pass
     return viol, stats, dg
 
 
